@@ -29,6 +29,7 @@ type env struct {
 
 type shape struct {
 	name        string
+	failing     bool // the undisturbed exchange ends in an error on both sides (the server denies the negotiation)
 	selfClosing bool // the instrumented party closes its connection when its work is done (server accept loop)
 	plain       bool // plain stream/message operations: the error must be the context's own
 	mk          func() (*env, error)
@@ -200,6 +201,15 @@ func mkSimple(methods []security.AuthMethod, auth, enc security.SecurityLevel) f
 		e.cli.PeerName = "vh-c19-server"
 		return e, nil
 	}
+}
+
+// mkDenied: irreconcilable policies (the server requires authentication and shares no
+// method with the client): negotiateSecurity fails on the server, which writes a
+// rejection ad before giving up (sendNegotiationFailureResponse); the client reads it.
+func mkDenied() (*env, error) {
+	e, _ := mkSimple([]security.AuthMethod{security.AuthClaimToBe}, security.SecurityRequired, security.SecurityRequired)()
+	e.srv.AuthMethods = []security.AuthMethod{security.AuthFS}
+	return e, nil
 }
 
 func mkToken() (*env, error) {
@@ -512,6 +522,7 @@ func allShapes() []shape {
 		{name: "frames-aes-swapped-conn", plain: true, mk: mkPlain, f1: frames1(true, true), f2: frames2(true, true)},
 		{name: "hs-claimtobe-swapped-conn", mk: mkSimple([]security.AuthMethod{security.AuthClaimToBe}, security.SecurityRequired, security.SecurityRequired), f1: hsClientSw, f2: hsServerSw},
 		{name: "hs-claimtobe-via-server.Serve", selfClosing: true, mk: mkSimple([]security.AuthMethod{security.AuthClaimToBe}, security.SecurityRequired, security.SecurityRequired), f1: hsClient, f2: serveLoop},
+		{name: "hs-negotiation-denied", failing: true, mk: mkDenied, f1: hsClient, f2: hsServer},
 		{name: "message", plain: true, mk: mkPlain, f1: msg1, f2: msg2},
 		{name: "secret-file", plain: true, mk: mkFile, f1: file1, f2: file2},
 		handshakeShape("hs-noauth-clear", mkSimple(none, security.SecurityNever, security.SecurityNever)),
